@@ -2,6 +2,7 @@
   C20 — All codec entry points agree.
 -/
 import Theorems.C03
+import Theorems.Typed
 
 namespace Amqp.Codec
 open Amqp.Gen.Codes
